@@ -128,4 +128,27 @@ pub fn run(r: &mut Report) {
         r.case("threshold-0-step-without-link", json!({"b": "no link file, threshold 0"}), "Err",
                match &res { Ok(v) => verdict(v), Err(p) => format!("panic: {}", p) }, ok);
     }
+
+    // functionary keys the library cannot check a signature for (unknown scheme), each with a junk and a genuine-looking
+    // signature entry attributed to it: such a link was not validly signed by an authorised functionary
+    {
+        use in_toto::crypto::{PublicKey, SignatureScheme};
+        let sources: Vec<(&str, &str, String)> = vec![("rsa spki, scheme rsa-pkcs1v15-sha256", "rsa/rsa-2048.spki.der", "rsa-pkcs1v15-sha256".into()),
+            ("ed25519 spki, scheme x", "ed25519/ed25519-1.spki.der", "x".into()), ("ecdsa spki, scheme ecdsa-sha2-nistp384", "ecdsa/ec.spki.der", "ecdsa-sha2-nistp384".into())];
+        for (what, file, scheme) in sources {
+            let unk = match std::fs::read(format!("/repo/tests/{}", file)).ok().and_then(|d| PublicKey::from_spki(&d, SignatureScheme::Unknown(scheme.clone())).ok()) { Some(k) => k, None => continue };
+            for sig in ["00".repeat(64), "00".repeat(256), "ab".repeat(32), { let g = signed_link(&la, &[&ka]); serde_json::to_value(&g.signatures[0]).unwrap()["sig"].as_str().unwrap().to_string() }] {
+                let d = tmpdir();
+                let mut mb = signed_link(&la, &[]);
+                mb.signatures = vec![serde_json::from_value(json!({"keyid": serde_json::to_value(unk.key_id()).unwrap(), "sig": sig})).unwrap()];
+                write_link(d.path(), "a", unk.key_id(), &mb);
+                let st = in_toto::models::step::Step::new("a").threshold(1).add_key(unk.key_id().clone());
+                let l = in_toto::models::LayoutMetadataBuilder::new().expires(chrono::Utc::now() + chrono::Duration::days(30)).add_step(st).add_key(unk.clone()).build().unwrap();
+                let lay = signed_layout(&l, &[&owner]);
+                let res = no_panic(|| in_toto_verify(&lay, owner_keys(&[&owner]), d.path().to_str().unwrap(), None));
+                r.case("uncheckable-functionary-key", json!({"key": what, "signature_hex_len": sig.len()}), "Err",
+                       match &res { Ok(v) => verdict(v), Err(p) => format!("panic: {}", p) }, matches!(&res, Ok(v) if v.is_err()));
+            }
+        }
+    }
 }
